@@ -722,10 +722,17 @@ impl DnsCache {
         // ..a Multicast DNS querier SHOULD NOT include
         // records in the Known-Answer list whose remaining TTL is less than
         // half of their original TTL.
+        //
+        // The end of a record's life can have been brought forward (cache
+        // flush, `verify`): what is left until `expires` counts as well.
         records
             .iter()
             .filter(move |r| {
-                !r.record.get_record().is_unique() && !r.record.get_record().halflife_passed(now)
+                let record = r.record.get_record();
+                let remaining = record.get_expire_time().saturating_sub(now);
+                !record.is_unique()
+                    && !record.halflife_passed(now)
+                    && remaining * 2 >= u64::from(record.get_ttl()) * 1000
             })
             .collect()
     }
